@@ -95,6 +95,27 @@ class TimeSeriesHolder(dict):
         return out
 
 
+def format_parameter(value, format_str='%0.4f'):
+    """
+    Render a numeric parameter for use in an equation. The short format is used when its text
+    reads back as exactly the same number; otherwise the full-precision representation is used,
+    so that the equation always carries the parameter that was given.
+
+    >>> format_parameter(0.2)
+    '0.2000'
+    >>> format_parameter(0.61234)
+    '0.61234'
+
+    :param value: float
+    :param format_str: str
+    :return: str
+    """
+    txt = format_str % (value,)
+    if float(txt) != float(value):
+        txt = repr(float(value))
+    return txt
+
+
 def is_local_variable(variable_name):
     """
     Is a variable name a local or fully qualified?
